@@ -70,7 +70,7 @@ CLAIMED = {
 
 # techniques added after the seeded rounds / refactor corpus (appended to the technique string of the property)
 MORE = {
- "C01": "census of text/number transformations on the key-derivation path; branch-origin check that 'start from the request key' is selected by the presence lookup only (flags resolved through callers)",
+ "C01": "census of text/number transformations on the key-derivation path; branch-origin check that 'start from the request key' is selected by the presence lookup only (flags resolved through callers); must-pass-through of every success return of Put/Update by the store into Data (CFG, through helpers)",
  "C02": "decision tables (abstract evaluation of the EFFECTIVE comparator – closure, helper, sort.Interface, sort.Reverse, alternatives under the direction flag – over both directions × the 9 orderings); cursor-step recognition and field-based resolution of local record types for loop state held in objects; counted-loop and page-limit exit classification; alias of the I1 path-case analysis",
  "C03": "closed state model of the index (T-FIELD closure, coherence of derived fields); zero-key-with-error discipline of the key derivation (sparse indexes)",
  "C04": "dominance of every returned key by the table-key derivation; unconditional hand-over of the engine's resume key; classification of the resume comparison (operator, direction dependence, operands = primary key of the position vs rendered start key); aliases: verbatim S/N flow through the adapters, loop-exit classification",
@@ -81,11 +81,11 @@ MORE = {
  "C09": "length facts through closure-bound arities (free variable → binding → construction-site constant); guard check that identifier nodes are built from tokens checked to be identifiers; position-vs-length guard of the EOF token; list-member loops run to exhaustion unless an error object is returned",
  "C10": "presence→object-tag agreement of the attribute→object conversion (case chains and (predicate, constructor) tables; branch facts incl. short-circuit phis); value-origin tracing of every S/N slot store in all four mapper directions (package-local helpers looked into); must-non-nil analysis (make/literal/append/phi/helper returns/field invariants) of the type-carrying field per SDK member case and per object kind; aliases: lossless keys, ownership of conversion results",
  "C12": "canonicaliser recognition restricted to math/big; per-key-list text-order findings; boundary sites keyed by kind and operand origin (value-origin tracing)",
- "C13": "error-class dataflow for the key derivation's errors; interprocedural dominance of success returns by the key derivation; composition forms (Join, concatenation, multi-verb Sprintf); guarded-write census of Table.AttributesDef against operations other than table creation; alias of the lossless-key census",
+ "C13": "error-class dataflow for the key derivation's errors; interprocedural dominance of success returns by the key derivation; composition forms (Join, concatenation, multi-verb Sprintf); guarded-write census of Table.AttributesDef against operations other than table creation; alias of the lossless-key census; census of byte-slice→text conversions on the key derivation path",
  "C14": "shared package-level results; shallow element copies (copy / append(dst, src...) on slices of references)",
  "C16": "operand-evaluation dominance per node evaluator (no short-circuit before a non-error result), member loops; decision table of the write-request validator",
  "C17": "error-class dataflow (every returnable error value classified nil/sdk/engine/bare/sentinel/configured through helpers, phis and the mapper); pairwise dominance order of the checks per operation; events collected through helpers only one client has; aliases: verbatim scalars, type-field non-nilness, batch validators",
- "C18": "closed state model (field census against a confirmed table; coherence of derived fields by post-dominance of rewrites over the writers of their sources); escape analysis of loop-variable (and loop-variable field) addresses under pre-1.22 semantics; alias of the attribute-definition guard",
+ "C18": "closed state model (field census against a confirmed table; coherence of derived fields by post-dominance of rewrites over the writers of their sources); escape analysis of loop-variable (and loop-variable field) addresses under pre-1.22 semantics; aliases of the attribute-definition guard and of the I1 path-case analysis (item count)",
  "C19": "field-forwarding table KeysAndAttributes→GetItemInput; error-classification guard on the unprocessed edge; accumulation analysis in the function that holds the key loop",
  "C20": "decision table of the native/language dispatch (unknown tests enumerated both ways); closed state model of the native interpreter; registry accesses through selector helpers; unconditional propagation (only loop progress and panicking guards may govern the per-table store)",
 }
